@@ -16,6 +16,8 @@ for s in $seeds; do
   [ -f seeded/$s/patch.diff ] || continue
   git -C $wt checkout -q -- . ; git -C $wt clean -fdq
   if ! git -C $wt apply /verif/seeded/$s/patch.diff 2>/dev/null; then echo "seed=$s APPLY-FAILED" | tee -a out/seedmatrix.txt; continue; fi
+  # the contract files (comment-only) are taken live from /repo so that they always match /verif/props
+  for f in $(cd /repo && ls */zz_contracts_verif.go */*/zz_contracts_verif.go 2>/dev/null); do cp /repo/$f $wt/$f; done
   prop=$(echo $s | cut -c1-3)
   checks=""
   case " $registered " in *" $prop "*) checks="$prop";; esac
